@@ -1,3 +1,5 @@
+\* C29 quick: 2 channels, 3 items, 1 key + keyless, 2 payloads, <=1 injected failure, 1-2 batches in flight.
+\* 18,638 distinct states (38,744 generated), ~10 s idle / 25-70 s on the loaded box, 8 workers.
 SPECIFICATION Spec
 CONSTANTS
   NChans = 2
